@@ -273,6 +273,26 @@ def _battery_temporal(ctx, h, S, rng, chk, full):
         _check_snapshots(chk, sub, S, [k for k in S.edges if a <= k[0] < b], "subhypergraph(window)")
     sub = call(h.subhypergraph)
     _check_snapshots(chk, sub, S, list(S.edges), "subhypergraph()")
+    if isinstance(sub, dict) and sub and rng.random() < 0.3:
+        # the caller owns what it was handed: editing it must not change the next answer
+        mark = "__caller_edit__" if any(isinstance(n, str) for n in S.nodes) else -424242
+        try:
+            for g in sub.values():
+                g.add_edge((mark,))
+        except Exception:
+            pass
+        _check_snapshots(chk, call(h.subhypergraph), S, list(S.edges), "subhypergraph()(after the caller edited the previous result)")
+        if S.edges:
+            agg = call(h.aggregate, 1)
+            if isinstance(agg, dict):
+                for g in agg.values():
+                    try:
+                        g.add_edge((mark,))
+                    except Exception:
+                        pass
+                agg2 = call(h.aggregate, 1)
+                ok = isinstance(agg2, dict) and all(mark not in g.get_nodes() for g in agg2.values())
+                chk("aggregate(after the caller edited the previous result)", ok)
     # aggregate
     widths = list(range(1, tmax + 3))
     if not full and len(widths) > 3:
